@@ -23,7 +23,7 @@ import json
 import os
 from fractions import Fraction as Fr
 
-from .. import c12cases, hast as H
+from .. import c12cases, hast as H, pipeline
 from ..common import Check, lean_gate, ROOT, model_batch_parallel, model_batch, rng
 from ..findings import attribute
 from ..pool import run_tasks
@@ -445,6 +445,190 @@ def run_cli(chk, recs, limit, timeout):
 
 
 # ------------------------------------------------------------------------------------------------
+# several runs in one simulate call: the runs are independent draws from the exact law
+# ------------------------------------------------------------------------------------------------
+
+def product_law(rows, samples):
+    """law of `samples` independent copies: [[w, [vals of run 1] + ... + [vals of run k]]]"""
+    out = [(Fr(1), [])]
+    for _ in range(samples):
+        out = [(w * Fr(w2), vals + [list(v2)]) for w, vals in out for w2, v2 in rows]
+    return out
+
+
+def _flatten_joint(rows_first_final):
+    return [[w, [v for run in firsts for v in run] + [v for run in finals for v in run]]
+            for w, firsts, finals in rows_first_final]
+
+
+def multi_jobs(recs, quick):
+    """(case, n, samples): templates with a random initial section, corpus programs, and agreeing cases with few paths"""
+    jobs = []
+    for r in recs:
+        c = r["case"]
+        if r["status"] != "agree" or c["patches"]:
+            continue
+        k = c.get("model_npaths") or 10 ** 9
+        forced = c["family"] in ("initrandom", "corpus", "statedep")
+        if forced or k <= 14:
+            if k <= 40:
+                jobs.append((c, c["n"], 2))
+        if (forced or len(jobs) % 3 == 0) and k <= 6:
+            jobs.append((c, c["n"], 3))
+    return jobs[: (60 if quick else 600)]
+
+
+def run_multi(chk, recs, quick, timeout):
+    jobs = multi_jobs(recs, quick)
+    tasks = [{"fn": "harness.tasks.c12:enumerate_multi",
+              "args": {"text": c["text"], "n": n, "vars": c["vars"], "samples": k, "max_paths": 60000}}
+             for c, n, k in jobs]
+    results = run_tasks(tasks, timeout=timeout) if tasks else []
+    n_ok = 0
+    for (c, n, k), res in zip(jobs, results):
+        chk.evaluations += 1
+        if res["status"] != "ok" or res["result"]["error"] or res["result"]["truncated"]:
+            chk.count("multi:" + (res["status"] if res["status"] != "ok" else "error-or-truncated"))
+            if res["status"] == "ok" and res["result"]["error"]:
+                chk.violation(f"simulate(program, goals, {k}) raises {res['result']['error']} although one run works [{c['id']}]",
+                              {"kind": "multi", "text": c["text"], "n": n, "samples": k, "vars": c["vars"],
+                               "program": _prog_json(c), "detail": res["result"]["error"]})
+            continue
+        # expected: independent runs; the state after the initial section and the final state of every run
+        first, final = c["spec_dists"][0], c["spec_dists"][n]
+        # joint law of (initial state, final state) of ONE run is not available from `dist`; compare the two marginal
+        # product laws (all initial states, all final states) separately
+        got = res["result"]["joint"]
+        ok_all = True
+        for label, rows, pick in (("initial", first, 1), ("final", final, 2)):
+            marg = {}
+            for row in got:
+                key = json.dumps(row[pick])
+                marg[key] = marg.get(key, Fr(0)) + Fr(row[0])
+            got_rows = [[H.fr_str(w), [v for run in json.loads(key) for v in run]] for key, w in marg.items()]
+            exp_rows = [[H.fr_str(w), [v for run in vals for v in run]] for w, vals in product_law(rows, k)]
+            ok, nr, det = compare_dists(got_rows, exp_rows)
+            if not ok:
+                ok_all = False
+                chk.violation(f"{k} runs of one simulate call are not independent draws from the exact law: joint law of "
+                              f"the {label} states of the runs is not the product law [{c['id']}]",
+                              {"kind": "multi", "text": c["text"], "n": n, "samples": k, "vars": c["vars"],
+                               "program": _prog_json(c), "which": label, "detail": det,
+                               "how": "harness.tasks.c12:enumerate_multi(text, n, vars, samples): every resolution of the "
+                                      "scripted sources over ONE Simulator(n).simulate(program, [], samples); expected: "
+                                      "product of `samples` copies of polar-model op=dist"})
+                break
+        chk.count(f"multi-{k}-runs:" + ("ok" if ok_all else "FAIL"))
+        chk.count("multi-paths", res["result"]["npaths"])
+        if ok_all:
+            n_ok += 1
+            if res["result"]["npaths"] > 1:
+                chk.nontrivial.add(f"multi:{k}:{c['text']}")
+    chk.coverage["multi_run_cases"] = len(jobs)
+    return n_ok
+
+
+# ------------------------------------------------------------------------------------------------
+# arguments of every sampler call along the runs (parameters that change with the state)
+# ------------------------------------------------------------------------------------------------
+
+TRACE_VALUES = ["1/2", "-1/4", "3/4", "1", "-1/2"]
+
+
+def run_traces(chk, cases, samples, timeout):
+    tasks = [{"fn": "harness.tasks.c12:trace_draws",
+              "args": {"text": c["text"], "n": c["n"], "samples": samples, "values": TRACE_VALUES, "vars": c["vars"]}}
+             for c in cases]
+    results = run_tasks(tasks, timeout=timeout) if tasks else []
+    # model: states after k iterations of every run (same tape), then the documented call on those states
+    reqs, owner = [], []
+    for ci, (c, res) in enumerate(zip(cases, results)):
+        if res["status"] != "ok" or res["result"]["error"]:
+            continue
+        for ri, run in enumerate(res["result"]["runs"]):
+            for k in range(c["n"] + 1):
+                reqs.append({"op": "sim_run", "program": _prog_json(c), "n": k, "tape": run["tape"]})
+                owner.append((ci, ri, k))
+    ans = model_batch_parallel(reqs)
+    states = {}
+    for key, a in zip(owner, ans):
+        states[key] = a
+    n_model_ok = n_model_bad = 0
+    for ci, (c, res) in enumerate(zip(cases, results)):
+        chk.evaluations += 1
+        if res["status"] != "ok":
+            chk.count("trace:" + res["status"])
+            if res["status"] != "timeout":
+                chk.obligation(f"trace-run:{c['id']}", False, res)
+            continue
+        if res["result"]["error"]:
+            chk.count("trace:unsegmented")
+            chk.sample({"trace_unsegmented": [c["id"], res["result"]["error"]]}, limit=8)
+            continue
+        sreqs, sowner = [], []
+        bad_model = False
+        for ri, run in enumerate(res["result"]["runs"]):
+            per_iter = len(c["draws"])
+            if len(run["calls"]) != per_iter * c["n"]:
+                chk.violation(f"run {ri + 1} made {len(run['calls'])} sampler calls, the program draws {per_iter} per "
+                              f"iteration for {c['n']} iterations [{c['id']}]",
+                              {"kind": "trace", "text": c["text"], "n": c["n"], "samples": samples, "vars": c["vars"],
+                               "program": _prog_json(c), "draws": [[d[1], d[2]] for d in c["draws"]]})
+                bad_model = True
+                break
+            for k in range(c["n"] + 1):
+                a = states.get((ci, ri, k), {})
+                if not a.get("ok"):
+                    bad_model = True
+                    chk.sample({"trace_model_error": [c["id"], a.get("error")]}, limit=8)
+                    continue
+                model_vals = [a["state"].get(x) for x in c["vars"]]
+                if model_vals != run["states"][k]:
+                    bad_model = True
+                    chk.sample({"trace_state_mismatch": [c["id"], ri, k, run["states"][k], model_vals]}, limit=8)
+                if k < c["n"]:
+                    env = {x: Fr(v) for x, v in a["state"].items()}
+                    for j, (_, x, fam, pes) in enumerate(c["draws"]):
+                        ps = [H.fr_str(c12cases.eval_expr(pe, env)) for pe in pes]
+                        sreqs.append({"op": "sampler_call", "family": fam, "params": ps})
+                        sowner.append((ri, k, j, x, fam, ps))
+        if bad_model:
+            n_model_bad += 1
+        sans = model_batch(sreqs) if sreqs else []
+        stale = 0
+        for (ri, k, j, x, fam, ps), mo in zip(sowner, sans):
+            cap = res["result"]["runs"][ri]["calls"][k * len(c["draws"]) + j]
+            captured = (cap["fn"], tuple(Fr(v) for v in cap["shape"]), Fr(cap["loc"]), Fr(cap["scale"]))
+            spec, code = _call_tuple(mo.get("spec")), _call_tuple(mo.get("code"))
+            chk.count("trace-calls")
+            if code is not None and captured == code[:4] and not cap["extra_kwargs"]:
+                n_model_ok += 1
+            else:
+                n_model_bad += 1
+            if spec is None or captured != spec[:4] or cap["extra_kwargs"]:
+                stale += 1
+                if stale == 1:
+                    chk.violation(
+                        f"{x} = {fam}({', '.join(ps)}) in run {ri + 1}, iteration {k + 1}: sample passes "
+                        f"{[cap['fn'], cap['shape'], cap['loc'], cap['scale']]} to scipy, the documented call for the "
+                        f"current parameter values is {None if spec is None else [spec[0], [str(v) for v in spec[1]], str(spec[2]), str(spec[3])]} [{c['id']}]",
+                        {"kind": "trace", "text": c["text"], "n": c["n"], "samples": samples, "vars": c["vars"],
+                         "program": _prog_json(c), "draws": [[d[1], d[2]] for d in c["draws"]],
+                         "run": ri + 1, "iteration": k + 1, "variable": x, "family": fam, "params_now": ps,
+                         "captured": cap,
+                         "how": "harness.tasks.c12:trace_draws(text, n, samples, values, vars): one simulate call, every "
+                                "rvs call recorded; expected = polar-model op=sampler_call (spec) on the parameters "
+                                "evaluated in the state at the start of the iteration (op=sim_run on the same tape)"})
+        chk.count("trace:" + ("ok" if stale == 0 and not bad_model else "FAIL"))
+        if stale == 0 and not bad_model:
+            chk.nontrivial.add("trace:" + c["text"])
+            chk.sample({"trace": c["text"], "calls_run1": [[x["fn"], x["shape"], x["loc"], x["scale"]]
+                                                            for x in res["result"]["runs"][0]["calls"]][:6]}, limit=5)
+    chk.obligation("correspondence:sampler-calls-along-runs(model=code)", n_model_bad == 0 and n_model_ok > 0,
+                   {"calls_agree": n_model_ok, "differ": n_model_bad})
+
+
+# ------------------------------------------------------------------------------------------------
 # entry points
 # ------------------------------------------------------------------------------------------------
 
@@ -457,8 +641,11 @@ def run(tier):
     cap = 1200 if quick else 5000
     timeout = 90 if quick else 400
     r = rng(f"{PROP}-{tier}")
-    cases = c12cases.special_cases(r, f"{PROP}-{tier}-tpl", reps=1 if quick else 6) + \
+    corpus_discrete, corpus_traces = c12cases.corpus_cases(pipeline.load_corpus(PROP))
+    cases = corpus_discrete + c12cases.special_cases(r, f"{PROP}-{tier}-tpl", reps=1 if quick else 6) + \
+        c12cases.init_random_cases(r, f"{PROP}-{tier}-tpl") + \
         c12cases.generated_cases(r, n_gen, f"{PROP}-{tier}")
+    traces = corpus_traces + c12cases.trace_cases(r, f"{PROP}-{tier}-trace")
     recs = []
     if lean_ok:
         choose_n(cases, nmax, cap)
@@ -496,6 +683,8 @@ def run(tier):
                                                           "detail": x["detail"]} for x in n_model[:3]],
                     "harness_errors": [x["detail"] for x in n_herr[:2]], "by_family": fam})
     if lean_ok:
+        run_multi(chk, recs, quick, timeout * 2)
+        run_traces(chk, traces, 2 if quick else 3, timeout)
         run_cli(chk, recs, 24 if quick else 200, timeout)
         run_samplers(chk, 2000 if quick else 20000, timeout)
     chk.assumptions = [
@@ -517,6 +706,42 @@ def run(tier):
 def replay(path):
     with open(os.path.join(ROOT, path) if not os.path.isabs(path) else path) as fh:
         blob = json.load(fh)
+    if blob.get("kind") == "multi":
+        res = run_tasks([{"fn": "harness.tasks.c12:enumerate_multi",
+                          "args": {"text": blob["text"], "n": blob["n"], "vars": blob["vars"],
+                                   "samples": blob["samples"], "max_paths": 200000}}], timeout=600)[0]
+        spec = model_batch([{"op": "dist", "program": blob["program"], "n": k, "vars": blob["vars"], "sigma0": {}}
+                            for k in (0, blob["n"])])
+        bad = res["status"] != "ok" or bool(res["result"]["error"])
+        if not bad:
+            for label, a, pick in (("initial", spec[0], 1), ("final", spec[1], 2)):
+                marg = {}
+                for row in res["result"]["joint"]:
+                    key = json.dumps(row[pick])
+                    marg[key] = marg.get(key, Fr(0)) + Fr(row[0])
+                got = [[H.fr_str(w), [v for run in json.loads(key) for v in run]] for key, w in marg.items()]
+                exp = [[H.fr_str(w), [v for run in vals for v in run]]
+                       for w, vals in product_law(a.get("dist", []), blob["samples"])]
+                ok, _, det = compare_dists(got, exp)
+                print(f"{label} states of the {blob['samples']} runs:", "product law" if ok else f"NOT the product law {det}")
+                bad = bad or not ok
+        else:
+            print(res)
+        if bad:
+            print(f"VIOLATION property={PROP} replay={path}")
+            return 1
+        return 0
+    if blob.get("kind") == "trace":
+        case = {"id": "replay", "text": blob["text"], "n": blob["n"], "vars": blob["vars"],
+                "program": None, "draws": None}
+        chk = Check(PROP, "quick")
+        # rebuild the case from the stored program JSON
+        pj = blob["program"]
+        cj = pipeline.case_from_json({"program": pj, "goals": [], "params": {}, "sigma0": {}})
+        case["program"] = cj["program"]
+        case["draws"] = c12cases.draws_of(cj["program"])
+        run_traces(chk, [case], blob["samples"], 300)
+        return 1 if chk.violations else 0
     if blob.get("kind") == "cli-goal":
         res = run_tasks([{"fn": "harness.tasks.c12:cli_simulation",
                           "args": {"text": blob["text"], "goal_texts": blob["all_goals"], "n": blob["n"],
